@@ -17,6 +17,7 @@ import (
 	"github.com/octohelm/gengo/pkg/gengo/snippet"
 	"github.com/octohelm/gengo/pkg/namer"
 
+	"verifharness/internal/c10"
 	"verifharness/internal/core"
 )
 
@@ -37,6 +38,9 @@ type Val struct {
 	S string   `json:"s,omitempty"` // str / name / rtype ("int", "string", "[]string", "map[string]int", "bool")
 	B bool     `json:"b,omitempty"`
 	L []string `json:"l,omitempty"` // strs / map keys
+	// RenderStack: T = "c10" a value of C10's universe (CT, CV); T = "c10t" the reflect.Type of CT
+	CT *c10.TypeJ `json:"ct,omitempty"`
+	CV *c10.ValJ  `json:"cv,omitempty"`
 }
 
 // Arg is a named argument of T (N, S) or a positional argument of Sprintf (S = snippet, V = plain value).
@@ -54,6 +58,9 @@ type Snip struct {
 	Strs []string `json:"strs,omitempty"` // directive arguments
 	L    []Snip   `json:"l,omitempty"`    // snippets: elements; fragments: the one inner snippet
 	V    *Val     `json:"v,omitempty"`    // value, id
+	P    string   `json:"p,omitempty"`    // expose: package path
+	N    string   `json:"n,omitempty"`    // expose: exposed name
+	Self string   `json:"self,omitempty"` // ROOT only: the package the writer generates into (default example.com/x)
 }
 
 func mk(k string, s string) Snip { return Snip{K: k, S: []byte(s), Q: strconv.Quote(s)} }
@@ -76,6 +83,7 @@ func snippets(l ...Snip) Snip    { return Snip{K: "snippets", L: l} }
 func fragments(s Snip) Snip      { return Snip{K: "fragments", L: []Snip{s}} }
 func value(v Val) Snip           { return Snip{K: "value", V: &v} }
 func ident(v Val) Snip           { return Snip{K: "id", V: &v} }
+func expose(p, n string) Snip    { return Snip{K: "expose", P: p, N: n} }
 func comment(s string) Snip      { return mk("comment", s) }
 func directive(d string, args ...string) Snip {
 	x := mk("directive", d)
@@ -102,6 +110,24 @@ func goVal(v *Val) any {
 			m[k] = i
 		}
 		return m
+	case "c10":
+		if v.CT == nil || v.CV == nil {
+			return nil
+		}
+		rv, err := c10.Build(v.CT, v.CV)
+		if err != nil {
+			return nil
+		}
+		return rv.Interface()
+	case "c10t":
+		if v.CT == nil {
+			return nil
+		}
+		rt, err := c10.RType(v.CT)
+		if err != nil {
+			return nil
+		}
+		return rt
 	case "rtype":
 		switch v.S {
 		case "int":
@@ -179,6 +205,8 @@ func build(s *Snip) snippet.Snippet {
 		return snippet.Value(goVal(s.V))
 	case "id":
 		return snippet.ID(goVal(s.V))
+	case "expose":
+		return snippet.PkgExpose(s.P, s.N)
 	}
 	return nil
 }
@@ -189,10 +217,30 @@ type force struct{ s snippet.Snippet }
 func (force) IsNil() bool                                   { return false }
 func (f force) Frag(ctx context.Context) iter.Seq[string] { return f.s.Frag(ctx) }
 
-// renderOne renders into a fresh writer; ok=false when the rendering panicked
-func renderOne(s snippet.Snippet) (out string, ok bool) {
+const defaultSelf = "example.com/x"
+
+// rctx: the writer's package and tracker.  Sub-renderings of Value / ID leaves are observed with the tracker of the
+// main rendering in its FINAL state (RenderStack, crender_erase: a leaf renders the same text in every later state).
+type rctx struct {
+	self string
+	tr   namer.ImportTracker
+}
+
+func newCtx(self string) *rctx {
+	if self == "" {
+		self = defaultSelf
+	}
+	return &rctx{self: self, tr: namer.NewDefaultImportTracker()}
+}
+
+func (c *rctx) writer(buf *bytes.Buffer) gengo.SnippetWriter {
+	return gengo.NewSnippetWriter(buf, namer.NameSystems{"raw": namer.NewRawNamer(c.self, c.tr)})
+}
+
+// renderOne renders into a scratch buffer through the context's tracker; ok=false when the rendering panicked
+func (c *rctx) renderOne(s snippet.Snippet) (out string, ok bool) {
 	buf := bytes.NewBuffer(nil)
-	w := gengo.NewSnippetWriter(buf, namer.NameSystems{"raw": namer.NewRawNamer("example.com/x", namer.NewDefaultImportTracker())})
+	w := c.writer(buf)
 	p, _ := core.Recover(func() { w.Render(s) })
 	return buf.String(), !p
 }
@@ -202,6 +250,8 @@ func coqOptBytes(s string, ok bool) string { return core.CoqOpt(ok, core.Hex(s))
 type walkInfo struct {
 	bom, nolit, invalid bool
 	tags                map[string]bool
+	ctx                 *rctx
+	leafTexts           []string // what the Value / ID / PkgExpose leaves and plain Sprintf arguments render to (final tracker state)
 }
 
 // coq emits the Coq term of type snip and collects the classifiers
@@ -251,11 +301,12 @@ func coq(s *Snip, inSprintf bool, wi *walkInfo) string {
 			if a.S == nil {
 				v = goVal(a.V)
 			}
-			vl, vok := renderOne(force{snippet.Value(v)})
-			ti, tok := renderOne(force{snippet.ID(v)})
+			vl, vok := wi.ctx.renderOne(force{snippet.Value(v)})
+			ti, tok := wi.ctx.renderOne(force{snippet.ID(v)})
 			if !vok {
 				wi.nolit = true
 			}
+			wi.leafTexts = append(wi.leafTexts, vl, ti)
 			items = append(items, "(SVal "+coqOptBytes(vl, vok)+" "+coqOptBytes(ti, tok)+")")
 		}
 		return "(SSprintf " + core.Hex(f) + " " + core.CoqList(items) + ")"
@@ -278,18 +329,20 @@ func coq(s *Snip, inSprintf bool, wi *walkInfo) string {
 			return "(SFragments SNil)"
 		}
 		return "(SFragments " + coq(&s.L[0], false, wi) + ")"
-	case "value", "id":
+	case "value", "id", "expose":
 		x := build(s)
-		out, ok := renderOne(force{x})
+		out, ok := wi.ctx.renderOne(force{x})
+		wi.leafTexts = append(wi.leafTexts, out)
 		return "(SOpaque " + core.CoqBool(x.IsNil()) + " " + coqOptBytes(out, ok) + ")"
 	}
 	return "SNil"
 }
 
 type observed struct {
-	Panic bool   `json:"panic"`
-	Out   string `json:"out"`   // bytes written (before the panic, if any), Go-quoted
-	Msg   string `json:"panic_value,omitempty"`
+	Panic   bool              `json:"panic"`
+	Out     string            `json:"out"` // bytes written (before the panic, if any), Go-quoted
+	Msg     string            `json:"panic_value,omitempty"`
+	Imports map[string]string `json:"imports,omitempty"` // ImportTracker.Imports() after the rendering
 }
 
 // runLocal executes the real code on one input in THIS process (called in a supervised worker, see worker.go)
@@ -303,19 +356,25 @@ func runLocal(in json.RawMessage) core.Result {
 	var out string
 	var pv any
 	var panicked bool
-	run := func() (string, bool, any) {
+	run := func() (string, bool, any, *rctx) {
+		ctx := newCtx(s.Self)
 		buf := bytes.NewBuffer(nil)
-		w := gengo.NewSnippetWriter(buf, namer.NameSystems{"raw": namer.NewRawNamer("example.com/x", namer.NewDefaultImportTracker())})
+		w := ctx.writer(buf)
 		x := build(&s)
 		p, v := core.Recover(func() { w.Render(x) })
-		return buf.String(), p, v
+		return buf.String(), p, v, ctx
 	}
-	out, panicked, pv = run()
-	out2, p2, _ := run()
-	if p2 != panicked || (!panicked && out2 != out) {
+	var ctx *rctx
+	out, panicked, pv, ctx = run()
+	imports := map[string]string{}
+	for p, n := range ctx.tr.Imports() {
+		imports[p] = n
+	}
+	out2, p2, _, ctx2 := run()
+	if p2 != panicked || (!panicked && (out2 != out || !reflect.DeepEqual(ctx2.tr.Imports(), imports))) {
 		res.GoViolations = append(res.GoViolations, "rendering the same snippet twice gives different results")
 	}
-	o := observed{Panic: panicked, Out: strconv.Quote(out)}
+	o := observed{Panic: panicked, Out: strconv.Quote(out), Imports: imports}
 	if panicked {
 		o.Msg = fmt.Sprint(pv)
 		if len(o.Msg) > 120 {
@@ -324,9 +383,32 @@ func runLocal(in json.RawMessage) core.Result {
 	}
 	res.Observed = o
 
-	wi := &walkInfo{tags: map[string]bool{}}
+	wi := &walkInfo{tags: map[string]bool{}, ctx: ctx}
+	st := &stackInfo{self: ctx.self, quotes: map[string]string{}}
+	sterm, sok := stack(&s, false, st) // before coq(): coq() renders unused leaves through the same tracker
 	term := coq(&s, false, wi)
-	res.Coq = fmt.Sprintf("mk_case %s %s %s %s", term, coqOptBytes(out, !panicked), core.CoqBool(wi.bom), core.CoqBool(wi.nolit))
+	if sok {
+		res.Coq = fmt.Sprintf("mk_scase %s %s %s %s (mk_stack %s %s %s %s)", term, coqOptBytes(out, !panicked), core.CoqBool(wi.bom), core.CoqBool(wi.nolit),
+			core.Hex(ctx.self), c10.TableTerm(st.quotes), sterm, importsTerm(imports))
+		res.Tags = append(res.Tags, "stack")
+		if len(imports) > 0 {
+			res.Tags = append(res.Tags, "stack:imports")
+		}
+		if len(imports) > 1 {
+			res.Tags = append(res.Tags, "stack:imports>=2")
+		}
+		for t := range st.tags {
+			res.Tags = append(res.Tags, t)
+		}
+		// C03's sentence, Go side (readable reasons; the Coq predicate stack_holds decides the same on the same data)
+		if !panicked {
+			for _, r := range importReasons(out, wi.leafTexts, imports) {
+				res.GoViolations = append(res.GoViolations, r)
+			}
+		}
+	} else {
+		res.Coq = fmt.Sprintf("mk_case %s %s %s %s", term, coqOptBytes(out, !panicked), core.CoqBool(wi.bom), core.CoqBool(wi.nolit))
+	}
 	switch {
 	case wi.bom:
 		res.Class = "leading_bom"
